@@ -369,8 +369,8 @@ var blockers = []struct {
 	{"heredoc-then-read", "cat <<EOF\nhi\nEOF\nread x", true},
 	{"fn-recursion", "r() { r; }; r", true},
 	{"select-like", "while read -r a b; do echo $a; done", true},
-	{"cstyle-exit", "for ((;;)); do exit; done", true},
-	{"cstyle-return", "cf() { for ((;;)); do return; done; }; cf", true},
+	{"cstyle-exit", "for ((;;)); do exit; done", false}, // finite: exit leaves the loop (it did not before fix 5cf081e)
+	{"cstyle-return", "cf() { for ((;;)); do return; done; }; cf", false},
 	{"cstyle-break2", "for ((;;)); do for ((;;)); do break 2; done; done; sleep inf", true},
 	{"mapfile", "mapfile -t arr", true},
 	{"read-delim", "read -d : x", true},
